@@ -141,6 +141,14 @@ def flags(m):
     return wrapper, seed, leaves, fl
 
 
+def polluted(m):
+    """some plain (non-searchable) layer's __dict__ carries the shape keys a cost call writes through vars(layer)"""
+    for n, mod in m.named_modules():
+        if 'input_shape' in vars(mod) or 'output_shape' in vars(mod):
+            return True
+    return False
+
+
 def cost_probe(m):
     """every cost value obtainable under the current specification (exceptions are observations)"""
     out = {}
@@ -180,14 +188,13 @@ def fingerprint(m, x, deep=True):
         'rng': rng_hash(),
         'reqgrad': hj([(k, p.requires_grad) for k, p in m.named_parameters()]),
     }
+    fp['polluted'] = polluted(m)
     if deep:
         saved = torch.random.get_rng_state()
         try:
             c = clone(m)
-            fp['cost'] = cost_probe(c)
-            c = clone(m)
+            fp['cost'] = hj(cost_probe(c))
             fp['summary'] = hj(plain(c.summary()))
-            c = clone(m)
             try:
                 fp['export'] = struct_hash(c.export())
             except Exception as ex:
@@ -256,3 +263,35 @@ def run_sequence(cfg, ops, deep=True):
         obs.append(apply_op(m, x, op, cfg['method']))
         fps.append(fingerprint(m, x, deep))
     return {'obs': obs, 'fps': fps}
+
+
+def dfs(cfg, alphabet, depth, first_ops=None):
+    """all op sequences over `alphabet` of length <= depth (whose first op is in first_ops), each node reached by
+    applying ONE op to a deep copy of its parent (global RNG state copied too).  -> [(path, obs, fp)], root first"""
+    torch, _ = T()
+    m, x = build(cfg)
+    torch.manual_seed(SEED_RUN)
+    for op in cfg.get('prefix', ()):
+        apply_op(m, x, op, cfg['method'])
+    out = [((), None, fingerprint(m, x))]
+
+    def visit(par, rs, path):
+        for op in (alphabet if (path or first_ops is None) else first_ops):
+            c = clone(par)
+            torch.random.set_rng_state(rs)
+            ob = apply_op(c, x, op, cfg['method'])
+            fp = fingerprint(c, x)
+            out.append((path + (op,), ob, fp))
+            if len(path) + 1 < depth:
+                visit(c, torch.random.get_rng_state(), path + (op,))
+    visit(m, torch.random.get_rng_state(), ())
+    return out
+
+
+def linear(cfg, ops):
+    """the same on ONE live object without any copying of the model under test -> [(path, obs, fp)]"""
+    r = run_sequence(cfg, ops)
+    out = [((), None, r['fps'][0])]
+    for i in range(len(ops)):
+        out.append((tuple(ops[:i + 1]), r['obs'][i], r['fps'][i + 1]))
+    return out
